@@ -398,6 +398,11 @@ def execute(steps, corr, corr_after=False):
     if corr_after:
         for i, j, r in corr:
             q().set_correlation(w.objs[i], w.objs[j], r)
+        if corr and any(s[0] == "read" for s in steps):
+            # results that were read before the correlations were set keep their buffered numbers until they are
+            # recalculated (C05): bring them up to date, the law is stated for the current correlations
+            for k in w.derived_ids():
+                w.objs[k].recalculate()
     return w
 
 
